@@ -9,6 +9,7 @@ import WowSrp.Model.World
 import WowSrp.Lemmas.Layout
 import WowSrp.Lemmas.Rc4Total
 namespace WowSrp
+open WowSrp.Layout
 
 /-- the documented layout: username | four zero bytes | client seed LE | server seed LE | session key -/
 def worldProofInput (U : Bytes) (clientSeed serverSeed : Nat) (K : Bytes) : Bytes :=
